@@ -206,6 +206,17 @@ pub struct TrackView {
     pub visual_vote: Option<bool>,
 }
 
+/// results of a pipelined batch, being drained by their own thread
+pub struct Pending {
+    handle: std::thread::JoinHandle<Vec<(u64, Vec<SortTrack>)>>,
+}
+
+impl Pending {
+    pub fn collect(self) -> Vec<(u64, Vec<Rec>)> {
+        self.handle.join().expect("drainer thread panicked").into_iter().map(|(s, v)| (s, v.iter().map(Rec::from).collect())).collect()
+    }
+}
+
 pub enum Tracker {
     S(Sort),
     BS(BatchSort),
@@ -300,6 +311,39 @@ impl Tracker {
                     (0..n).map(|_| res.get()).map(|(s, v)| (s, v.iter().map(Rec::from).collect())).collect()
                 }
             }
+        }
+    }
+
+    /// Pipelined submission (batch trackers only): a drainer thread is started, the batch is
+    /// submitted and the call returns without waiting for the results, so that the next batch
+    /// can be submitted while the voting jobs of this one are still running.
+    pub fn submit_batch(&mut self, batch: &[(u64, Vec<Det>)]) -> Option<Pending> {
+        match self {
+            Tracker::BS(t) => {
+                let (mut req, res) = PredictionBatchRequest::<(Universal2DBox, Option<i64>)>::new();
+                for (s, d) in batch {
+                    for x in sort_input(d) {
+                        req.add(*s, x);
+                    }
+                }
+                let n = res.batch_size();
+                let handle = std::thread::spawn(move || (0..n).map(|_| res.get()).collect::<Vec<_>>());
+                t.predict(req);
+                Some(Pending { handle })
+            }
+            Tracker::BV(t) => {
+                let (mut req, res) = PredictionBatchRequest::<VisualSortObservation>::new();
+                for (s, d) in batch {
+                    for x in vis_input(d) {
+                        req.add(*s, x);
+                    }
+                }
+                let n = res.batch_size();
+                let handle = std::thread::spawn(move || (0..n).map(|_| res.get()).collect::<Vec<_>>());
+                t.predict(req);
+                Some(Pending { handle })
+            }
+            _ => None,
         }
     }
 
